@@ -3,6 +3,8 @@
 use leptos_router::{location::{RequestUrl, Url}, params::ParamsMap};
 use vsexp::{Lst, Num, Sexp};
 
+mod c14;
+
 mod c15 {
     use super::*;
 
@@ -73,7 +75,57 @@ mod c15 {
                     .collect();
                 pmap(&m)
             }
+            5 => nested(&text(arg.at(0)), &text(arg.at(1))),
             _ => Lst(vec![]),
+        }
+    }
+
+    thread_local! {
+        static SEEN: std::cell::RefCell<Vec<Sexp>> = const { std::cell::RefCell::new(Vec::new()) };
+    }
+
+    /// Server-render a real nested router (`/:a` with child `:b`) for the request path
+    /// `/<raw_a>/<raw_b>` and report the params map the leaf component reads through
+    /// `use_params_map()` (= the nested router's params_including_parents memo).
+    fn nested(raw_a: &str, raw_b: &str) -> Sexp {
+        use leptos::prelude::*;
+        use leptos_router::{
+            components::{ParentRoute, Route, Router, Routes},
+            hooks::use_params_map,
+            nested_router::Outlet,
+            ParamSegment,
+        };
+        #[component]
+        fn Parent() -> impl IntoView {
+            view! { <Outlet/> }
+        }
+        #[component]
+        fn Leaf() -> impl IntoView {
+            let p = use_params_map();
+            SEEN.with(|s| s.borrow_mut().push(pmap(&p.get_untracked())));
+            "leaf"
+        }
+        let _ = any_spawner::Executor::init_futures_executor();
+        SEEN.with(|s| s.borrow_mut().clear());
+        let owner = Owner::new();
+        let html = owner.with(|| {
+            provide_context(RequestUrl::new(&format!("/{raw_a}/{raw_b}")));
+            view! {
+                <Router>
+                    <Routes fallback=|| "notfound">
+                        <ParentRoute path=(ParamSegment("a"),) view=Parent>
+                            <Route path=(ParamSegment("b"),) view=Leaf/>
+                        </ParentRoute>
+                    </Routes>
+                </Router>
+            }
+            .to_html()
+        });
+        drop(owner);
+        let seen = SEEN.with(|s| s.borrow().clone());
+        match seen.len() {
+            1 => seen[0].clone(),
+            n => Lst(vec![Num(-3), Num(n as i64), Sexp::from_str(&html)]),
         }
     }
 }
@@ -82,6 +134,7 @@ fn main() {
     let which = std::env::args().nth(1).unwrap_or_default();
     match which.as_str() {
         "c15" => vsexp::drive(c15::run),
+        "c14" => vsexp::drive(c14::run),
         other => {
             eprintln!("unknown sub-command {other:?}");
             std::process::exit(2)
